@@ -428,9 +428,9 @@ let qlen = function
 | true -> S (S (S O))
 | false -> S O
 
-(** val run : nat -> bool -> mode -> ch list -> state -> result **)
+(** val run : nat -> bool -> bool -> mode -> ch list -> state -> result **)
 
-let rec run fuel fixp m rest s =
+let rec run fuel fixp fixe m rest s =
   match fuel with
   | O -> OutOfFuel
   | S fuel0 ->
@@ -446,19 +446,20 @@ let rec run fuel fixp m rest s =
              let s2 = emit_label body0 (emit (app sk (c_hash :: [])) s) in
              (match after with
               | [] -> finish s2
-              | _ :: _ -> run fuel0 fixp (MCode c) after s2)
+              | _ :: _ -> run fuel0 fixp fixe (MCode c) after s2)
            | TBrace b ->
              let s1 = emit (app sk (b :: [])) s in
              (match c with
-              | CTop -> run fuel0 fixp (MCode c) rest' s1
+              | CTop -> run fuel0 fixp fixe (MCode c) rest' s1
               | CFromStr (q, triple, p1) ->
                 if N.eqb b c_rb
-                then run fuel0 fixp (MStr (q, triple, true, p1, [])) rest' s1
-                else run fuel0 fixp (MCode (CFromCode c)) rest' s1
+                then run fuel0 fixp fixe (MStr (q, triple, true, p1, []))
+                       rest' s1
+                else run fuel0 fixp fixe (MCode (CFromCode c)) rest' s1
               | CFromCode p1 ->
                 if N.eqb b c_rb
-                then run fuel0 fixp (MCode p1) rest' s1
-                else run fuel0 fixp (MCode (CFromCode c)) rest' s1)
+                then run fuel0 fixp fixe (MCode p1) rest' s1
+                else run fuel0 fixp fixe (MCode (CFromCode c)) rest' s1)
            | TQuote (pre, q, qrun) ->
              let n0 = length qrun in
              let n' =
@@ -467,14 +468,16 @@ let rec run fuel fixp m rest s =
                else modulo n0 (S (S (S (S (S (S O))))))
              in
              if (||) (eqb n' O) (eqb n' (S (S O)))
-             then run fuel0 fixp (MCode c) rest'
+             then run fuel0 fixp fixe (MCode c) rest'
                     (emit (app sk (app pre qrun)) s)
              else let extra =
                     sub n' (if eqb n' (S O) then S O else S (S (S O)))
                   in
                   let keep = sub n0 extra in
-                  run fuel0 fixp (MStr (q, (negb (eqb n' (S O))),
-                    (nonempty pre), c, (rev (skipn keep qrun)))) rest'
+                  run fuel0 fixp fixe (MStr (q, (negb (eqb n' (S O))),
+                    ((&&) (nonempty pre)
+                      (negb ((&&) fixe (leb (S (S (S (S (S (S O)))))) n0)))),
+                    c, (rev (skipn keep qrun)))) rest'
                     (emit (app sk (app pre (firstn keep qrun))) s)
            | _ -> Stuck)
         | None -> finish (emit rest s))
@@ -488,27 +491,27 @@ let rec run fuel fixp m rest s =
              if negb isf
              then Stuck
              else if (||) (even (length brun)) (negb (N.eqb b c_lb))
-                  then run fuel0 fixp (MStr (q, triple, isf, p,
+                  then run fuel0 fixp fixe (MStr (q, triple, isf, p,
                          (rev_append (app sk brun) rpend))) rest' s
                   else let s1 =
                          emit_label_ne
                            (rev_append rpend (app sk (removelast brun))) s
                        in
-                       run fuel0 fixp (MCode (CFromStr (q, triple, p))) rest'
-                         (emit (c_lb :: []) s1)
+                       run fuel0 fixp fixe (MCode (CFromStr (q, triple, p)))
+                         rest' (emit (c_lb :: []) s1)
            | TEscape (bs, c) ->
              if (&&) (even (length bs)) (N.eqb c q)
-             then run fuel0 fixp (MStr (q, triple, isf, p,
+             then run fuel0 fixp fixe (MStr (q, triple, isf, p,
                     (rev_append (app sk bs) rpend))) (c :: rest') s
-             else run fuel0 fixp (MStr (q, triple, isf, p,
+             else run fuel0 fixp fixe (MStr (q, triple, isf, p,
                     (rev_append (app sk (app bs (c :: []))) rpend))) rest' s
            | TQuote (pre, c, qrun) ->
              if (&&) (N.eqb c q) (leb (qlen triple) (length qrun))
              then let s1 = emit_label_ne (rev_append rpend (app sk pre)) s in
-                  run fuel0 fixp (MCode p)
+                  run fuel0 fixp fixe (MCode p)
                     (app (skipn (qlen triple) qrun) rest')
                     (emit (firstn (qlen triple) qrun) s1)
-             else run fuel0 fixp (MStr (q, triple, isf, p,
+             else run fuel0 fixp fixe (MStr (q, triple, isf, p,
                     (rev_append (app sk (app pre qrun)) rpend))) rest' s
            | _ -> Stuck)
         | None -> finish (emit_label (rev_append rpend rest) s)))
@@ -518,10 +521,10 @@ let rec run fuel fixp m rest s =
 let init_state =
   { s_out = []; s_lits = []; s_cnt = N0 }
 
-(** val strip : bool -> ch list -> result **)
+(** val strip : bool -> bool -> ch list -> result **)
 
-let strip fixp code =
-  run (S (length code)) fixp (MCode CTop) code init_state
+let strip fixp fixe code =
+  run (S (length code)) fixp fixe (MCode CTop) code init_state
 
 type rstate =
 | RCode of nat
